@@ -1,6 +1,7 @@
 package main
 
 import (
+	"runtime/debug"
 	"flag"
 	"fmt"
 	"os"
@@ -31,6 +32,39 @@ func main() {
 		cmdVerify(os.Args[2:])
 	case "check":
 		os.Exit(cmdCheck(os.Args[2:]))
+	case "sweep":
+		os.Exit(cmdSweep(os.Args[2:]))
+	case "survey":
+		p, err := loadAll(nil)
+		if err != nil {
+			fmt.Fprintln(os.Stderr, err)
+			os.Exit(2)
+		}
+		nu := 0
+		for _, k := range p.sortedFuncKeys() {
+			resetEngine()
+			ex := newExec(p, p.Funcs[k])
+			ex.noHoudini = true
+			var res *FuncResult
+			func() {
+				defer func() {
+					if r := recover(); r != nil {
+						res = &FuncResult{Key: k, Undecided: fmt.Sprintf("PANIC: %v", r)}
+						if os.Getenv("GOVC_TRACE") != "" {
+							debug.PrintStack()
+						}
+					}
+				}()
+				res = ex.verifyFunc()
+			}()
+			if res.Undecided != "" {
+				nu++
+				fmt.Printf("UNDECIDED %-45s %s\n", k, res.Undecided)
+			} else {
+				fmt.Printf("ok        %-45s %d obligations\n", k, len(res.Obls))
+			}
+		}
+		fmt.Println("undecided:", nu)
 	case "list":
 		p, err := loadAll(nil)
 		if err != nil {
